@@ -15,8 +15,8 @@ CFG = {
                   "c10_proper_prefix_is_error); for EVERY chunking and every read program ReaderX decodes what BufferX decodes "
                   "from the concatenation (c10_read_agrees: same data or same error at the Read level; c10_readerx_agrees: same "
                   "values, errors at the same reads, same bytes left). case_sound is a theorem through model_holds-style lemmas "
-                  "(round_sound, trunc_sound, rewrite_sound, hist_sound, stream_sound). The model is tied to the code on every run "
-                  "by five kinds of experiment on the real package (typed programs with all / sampled truncation points, random "
+                  "(round_sound, trunc_sound, rewrite_sound, hist_sound, stream_sound); a refused write is the identity on the buffer (c10_failed_write_identity) and the accepted writes around it still read back (c10_roundtrip_with_refused). The model is tied to the code on every run "
+                  "by six kinds of experiment on the real package (typed programs with all / sampled truncation points, random "
                   "histories incl. mismatched reads and rewrites, crafted and arbitrary decoder input, rewrites on a partly consumed "
                   "buffer, ReaderX over one-byte / random / empty-chunk / all-at-once sources against BufferX), each outcome "
                   "compared inside Coq with the model (values, error class, bytes left). Proof is the right level: the quantifiers "
@@ -29,17 +29,27 @@ CFG = {
                   "where the buffer reader reports ErrByteBufferEmpty when a non-empty string / ZReadN finds the source exhausted "
                   "exactly at its start (modelled as coded; the property asks for 'an error instead of a value', `sims` compares "
                   "error-ness, c10_read_agrees gives equal classes at the Read level). No axioms, nothing admitted, no PENDING clause.",
-    "rule": "one case = one experiment on the real bytex package: CRound (typed writes, Bytes, same typed reads, Len), CTrunc (the same "
-            "stream cut at a byte position, same reads), CHist (random history of writes / reads of any type / rewrites / Len / Bytes / "
-            "Reset, optionally from arbitrary initial bytes), CReWrite (Bytes, ReWrite or ReWriteU32 at a position in or out of range on "
-            "a partly consumed buffer, Bytes), CStream (read program on ReaderX over a chunked source and on BufferX over the same "
-            "bytes). Non-trivial: round = at least one write; trunc = cut < total; hist/rewrite = always; arbitrary bytes = non-empty "
-            "input; stream = non-empty input and at least one read. distinct = distinct Coq case term.",
+    "rule": "one case = one experiment on the real bytex package: CRound (typed writes - some of them limited strings over their limit, "
+            "which must be refused and leave the buffer unchanged -, Bytes, the typed reads of the accepted writes, Len), CTrunc (the stream of "
+            "the accepted writes cut at a byte position, same reads), CHist (random history of writes / reads of any type / rewrites / Len / "
+            "Bytes / Reset, optionally from arbitrary initial bytes; every refused write is bracketed by Len or Bytes observations and the "
+            "monitor demands the same length before and after), CHold (codec loop in which the caller keeps the strings of ReadString / "
+            "ReadLimitString and the slices of ReadN WITHOUT copying while the buffer is drained and rewritten, Reset and reused, or reads the "
+            "caller's own slice which the caller overwrites at the end; every kept value is rendered again after the history and must equal "
+            "what it was when returned; ZReadN is documented 'no copy' and Bytes() hands out the buffer itself, so these two are excluded), "
+            "CReWrite (Bytes, ReWrite or ReWriteU32 at a position in or out of range on a partly consumed buffer, Bytes), CStream (read program "
+            "on ReaderX and on BufferX over the same bytes; the io.Reader given to NewReaderX is chosen per case: the chunk reader itself, "
+            "*bufio.Reader of size 16 / 64 / 4096 (NewReaderSize and NewReader), *bytes.Reader, *strings.Reader, *io.LimitedReader, "
+            "iotest.OneByteReader, iotest.HalfReader, a DataErrReader; strings and byte counts of 15..17, 63..65, 4095..4097 bytes around the "
+            "bufio windows). Non-trivial: round = at least one write; trunc = cut < total; hist/rewrite = always; arbitrary bytes = non-empty "
+            "input; hold = at least one kept value; stream = non-empty input and at least one read. distinct = distinct Coq case term.",
     "trusted": ["Go harness cmd/c10: chunkSrc (the fragmenting io.Reader: one chunk per Read, empty chunks = (0,nil), optional EOF with the last data), "
+                "the reader types wrapped around it (bufio, bytes, strings, io.LimitedReader, testing/iotest; the model is the same for all: an io.Reader delivering these bytes), "
                 "recover wrappers, error-to-enum mapping (errors.Is on io.EOF, io.ErrUnexpectedEOF, bytex.Err*; the text 'varint overflows' for binary's unexported error)",
-                "announced string lengths above 4096 are not passed to ReaderX.ReadString (it allocates the announced length): such reads are replaced by ReadU32 in the stream class; BufferX sees them unrestricted"],
+                "announced string lengths above 8192 are not passed to ReaderX.ReadString (it allocates the announced length): such reads are replaced by ReadU32 in the stream class; BufferX sees them unrestricted"],
     "assumptions": ["BufferX / ReaderX are used by one goroutine at a time (the property is sequential; neither type has a lock)",
                     "int is 64 bits (int(uint32) is non-negative), as on the amd64 platform the check runs on",
-                    "math.Float64frombits / Float64bits are inverse bit casts that preserve NaN payloads"],
+                    "math.Float64frombits / Float64bits are inverse bit casts that preserve NaN payloads",
+                    "values are immutable in the model; that a returned Go string / copied slice really is (no aliasing of the buffer) is observed by the hold-results experiments, not proved"],
     "lint": [],
 }
